@@ -183,6 +183,12 @@ macro_rules! const_monty_table {
                 _ => Res::Unsupported,
             }
         }
+    };
+}
+crate::for_each_modulus_small!(const_monty_table);
+
+macro_rules! const_monty_words {
+    ($( ($idx:expr, $name:ident, $n:expr) ),* $(,)?) => {
         pub fn const_modulus_words(id: usize) -> Vec<u64> {
             use crate::moduli::*;
             match id {
@@ -192,7 +198,7 @@ macro_rules! const_monty_table {
         }
     };
 }
-crate::for_each_modulus!(const_monty_table);
+crate::for_each_modulus!(const_monty_words);
 
 /// One library call against the tape.
 pub fn call(p: &Plan, api: Api, tape: &mut Tape) -> Res {
@@ -437,6 +443,14 @@ fn judge(p: &Plan, api: Api, tp: &TapePlan, o: &Obs, out: &mut RunOut, replay: &
         } else {
             arg_errs.contains(&kind)
         };
+        if !ok && (panicking || infallible) {
+            out.viol(
+                "C11/missing-panic",
+                sig(p, &format!("{:?}:expected-panic-on={}", api, arg_errs.join("|"))),
+                format!("bit_length={} precision={}: the panicking wrapper is documented to panic when the try_ form errs, got {}", p.bit_length, p.precision, kind),
+                replay(),
+            );
+        }
         if !ok {
             out.viol(
                 "C19/error-kind",
@@ -1053,7 +1067,7 @@ impl TypedScenario for Script {
                 p.healthy_from = h;
             }
             Api::ConstMonty => {
-                let cands: Vec<usize> = crate::moduli::TABLE.iter().filter(|(_, l)| ws.contains(l) || *l <= 4).map(|(i, _)| *i).collect();
+                let cands: Vec<usize> = crate::moduli::SMALL_TABLE.iter().filter(|(_, l)| ws.contains(l) || *l <= 4).map(|(i, _)| *i).collect();
                 p.modulus_id = *r.pick(&cands);
                 let m = const_modulus_words(p.modulus_id);
                 p.limbs = m.len();
